@@ -4,6 +4,7 @@ package main
 
 import (
 	"fmt"
+	"go/constant"
 	"go/token"
 	"strings"
 
@@ -277,6 +278,77 @@ func (m *Model) RunPathAPI(s *Sink, rule string) {
 			s.Violation(rule, fnKey(st)+"|unknown name is reported as not found", m.Pos(st.Pos()), "an unknown template name does not take the miss edge to the template-not-found error")
 		}
 	}
+	// the configured directory is the caller's spelling, normalised only by removing slashes at its ends (or by a path
+	// cleaner): every store into the configuration's TemplateDir holds the given directory passed through such calls only
+	nDirStores := 0
+	for _, fn := range m.ModFns {
+		if fn.Blocks == nil || shortPkg(fnPkgPath(fn)) != "textwire" {
+			continue
+		}
+		for _, b := range fn.Blocks {
+			for _, in := range b.Instrs {
+				st, isSt := in.(*ssa.Store)
+				if !isSt {
+					continue
+				}
+				fa, isFA := st.Addr.(*ssa.FieldAddr)
+				if !isFA || fieldName(fa.X.Type(), fa.Field) != "TemplateDir" || !strings.HasSuffix(derefTypeString(fa.X.Type()), "config.Config") {
+					continue
+				}
+				if g, isG := derefGlobal(fa.X); !isG || canonGlobalName(g) != "userConfig" {
+					if _, direct := fa.X.(*ssa.Global); !direct {
+						if ld, isLd := fa.X.(*ssa.UnOp); !isLd || ld.Op != token.MUL {
+							continue
+						}
+					}
+				}
+				nDirStores++
+				key := fmt.Sprintf("%s|the template directory is kept as given, less the slashes at its ends", fnKey(fn))
+				v := st.Val
+				bad := ""
+				for d := 0; d < 6 && bad == ""; d++ {
+					if _, isK := v.(*ssa.Const); isK {
+						break // a default
+					}
+					if strings.HasSuffix(fieldPathOf(v), ".TemplateDir") {
+						break // the caller's option
+					}
+					c, isC := v.(*ssa.Call)
+					if !isC || c.Call.StaticCallee() == nil || len(c.Call.Args) == 0 {
+						bad = "is computed by " + valueDesc(v)
+						break
+					}
+					name := fnFullName(c.Call.StaticCallee())
+					switch name {
+					case "strings.Trim", "strings.TrimRight", "strings.TrimLeft", "strings.TrimSuffix", "strings.TrimPrefix":
+						k, isK := c.Call.Args[1].(*ssa.Const)
+						cut := ""
+						if isK && k.Value != nil && k.Value.Kind() == constant.String {
+							cut = constant.StringVal(k.Value)
+						}
+						if !isK || cut == "" || strings.Trim(cut, "/") != "" || (name == "strings.TrimPrefix" && false) {
+							bad = fmt.Sprintf("is passed through %s with %s: only slashes may be removed (a cutset is a set of characters: \"./\" also eats the dots of \"../x\" and \".hidden\")", name, valueDesc(c.Call.Args[1]))
+						}
+						if name == "strings.TrimLeft" || name == "strings.TrimPrefix" || name == "strings.Trim" {
+							// a leading slash is removed by the code as it stands (Trim): kept as is
+						}
+					case "path/filepath.Clean", "path.Clean", "path/filepath.ToSlash", "path/filepath.FromSlash":
+					default:
+						bad = "is passed through " + name
+					}
+					v = c.Call.Args[0]
+				}
+				if bad == "" {
+					s.OK(rule, key, m.InstrPos(st), "the stored value is the option itself passed only through slash trimming / path cleaning")
+				} else {
+					s.Violation(rule, key, m.InstrPos(st), "%s stores a template directory that %s: two spellings of different directories can become the same one, or the directory the caller named is not the one that is loaded", fnKey(fn), bad)
+				}
+			}
+		}
+	}
+	if nDirStores == 0 {
+		s.Undecided(rule, "textwire|stores of the template directory", "-", "no store into the configuration's TemplateDir found")
+	}
 	// EvaluateFile == EvaluateString(content)
 	ef := m.PkgFunc("textwire", "EvaluateFile")
 	es := m.PkgFunc("textwire", "EvaluateString")
@@ -290,7 +362,9 @@ func (m *Model) RunPathAPI(s *Sink, rule string) {
 					continue
 				}
 				if ex, isEx := c.Call.Args[0].(*ssa.Extract); isEx && ex.Index == 0 {
-					if src, isCall := ex.Tuple.(*ssa.Call); isCall && src.Call.StaticCallee() == fc && c.Call.Args[1] == ssa.Value(ef.Params[1]) {
+					// ... of the file at exactly the path the caller gave (not a path re-resolved against the template
+					// directory or anything else that depends on earlier calls)
+					if src, isCall := ex.Tuple.(*ssa.Call); isCall && src.Call.StaticCallee() == fc && c.Call.Args[1] == ssa.Value(ef.Params[1]) && len(src.Call.Args) > 0 && src.Call.Args[0] == ssa.Value(ef.Params[0]) {
 						ok = true
 					}
 				}
@@ -322,7 +396,7 @@ func (m *Model) RunPathAPI(s *Sink, rule string) {
 		if ok && okFC {
 			s.OK(rule, fnKey(ef)+"|evaluates the file's content as a string", m.Pos(ef.Pos()), "string(os.ReadFile(path)) flows unchanged into EvaluateString together with the caller's data")
 		} else {
-			s.Violation(rule, fnKey(ef)+"|evaluates the file's content as a string", m.Pos(ef.Pos()), "EvaluateFile does not pass the unmodified file content and the caller's data to EvaluateString")
+			s.Violation(rule, fnKey(ef)+"|evaluates the file's content as a string", m.Pos(ef.Pos()), "EvaluateFile does not pass the unmodified content of the file at the given path, and the caller's data, to EvaluateString (the path is transformed first, or the content is)")
 		}
 	}
 }
